@@ -112,7 +112,7 @@ func msgFields(m *rtcm.Message) string {
 		m.Timestamp, sentAtField(m.SentAt), startOfWeekField(m.StartOfWeek))
 }
 
-// case: stream <T ns> <info|debug> <hex> [capIn capOut [delay]]
+// case: stream <T ns> <info|debug> <hex> [capIn capOut [delay [stall:<idx>:<ms>]]]   (stall: the producer pauses once, before byte idx)
 // obs:  n=<count> <msg>;<msg>;...   closed=<times the output was seen closed>   | panic
 func runStream(f []string, out *bufio.Writer) {
 	T := time.Unix(0, atoi64(f[1])).UTC()
@@ -129,6 +129,13 @@ func runStream(f []string, out *bufio.Writer) {
 	if len(f) >= 7 {
 		delay = atoi(f[6]) // 1: slow producer, 2: slow consumer, 3: both (yield between operations)
 	}
+	stallAt, stallMs := -1, 0
+	if len(f) >= 8 && strings.HasPrefix(f[7], "stall:") {
+		p := strings.Split(f[7], ":")
+		if len(p) == 3 {
+			stallAt, stallMs = atoi(p[1]), atoi(p[2])
+		}
+	}
 	finished := make(chan interface{}, 1) // nil = returned normally, else the panic value
 	go func() {
 		defer func() {
@@ -141,6 +148,9 @@ func runStream(f []string, out *bufio.Writer) {
 		for i, b := range data {
 			if delay&1 != 0 && i%3 == 0 {
 				time.Sleep(20 * time.Microsecond)
+			}
+			if i == stallAt {
+				time.Sleep(time.Duration(stallMs) * time.Millisecond)
 			}
 			chIn <- b
 		}
